@@ -2,11 +2,15 @@
 C13 — Blahut-Arimoto results (capacity, rate-distortion, IB) are certified optima.
 """
 import math
+import os
+import pickle
+import random
 from fractions import Fraction
 
 import numpy as np
 
 import core
+import covtrace
 import gen
 from canon import f2bits, bits2f
 from env import import_dit
@@ -18,6 +22,13 @@ def fm(M):
 
 def fv(v):
     return [f2bits(float(x)) for x in v]
+
+
+class core_rd_result(object):
+    """(rate, distortion) as reported by a call made in another process."""
+
+    def __init__(self, rate, distortion):
+        self.rate, self.distortion = rate, distortion
 
 
 def H2(x):
@@ -34,6 +45,12 @@ class C13(object):
             "2-3 letters, beta in [0, 8], Hamming distortion (and residual-entropy distortion for consistency only), "
             "Bernoulli sources against R(D) = H(p) - H(D), monotonicity along 3-5 increasing beta; blahut_arimoto_ib on "
             "2x2, 2x3, 3x2 joints. Each output is certified by the duality gaps evaluated by the model in Float. "
+            "Argument shapes of channel_capacity: conditionals as an array or as a list of Distributions (trimmed or not), "
+            "with or without the optional `marginal` (uniform, positive, with exact zeros, a point mass, entries of 1e-11 / "
+            "1e-14; trim=False so that every input letter is present), rtol / atol left to the defaults or passed. "
+            "Sequences of 1-5 blahut_arimoto calls in one process (rd-seq) on sources over 2-4 letters that may contain "
+            "letters of probability exactly 0 (Hamming; residual-entropy only on strictly positive sources), every call of "
+            "the sequence certified on its own. "
             "Non-trivial = at least 2 inputs and 2 outputs with a non-degenerate channel")
     tolerances = {'reported value = definition on the returned input / joint': '1e-7',
                   'capacity duality gap': '<= 1e-3 max(1, C) (the code stops when successive values agree to rtol 1e-7 / atol 1e-9, which does not bound the gap tighter)',
@@ -44,6 +61,121 @@ class C13(object):
                 "certificate is within the gap of every competitor")
 
     def gen(self, rng, tier):
+        for c in self.gen_base(rng, tier):
+            yield c
+        # Entry-point shapes and call sequences. Drawn from a generator of their own (seeded from `rng` after the cases
+        # above), so that the cases above are the same for a given seed whatever is added here.
+        rng2 = random.Random(rng.getrandbits(64))
+        for _ in range(70 if tier == 'quick' else 3000):
+            if rng2.random() < 0.55:
+                yield self.gen_capacity_call(rng2)
+            else:
+                yield self.gen_rd_seq(rng2)
+
+    # -- channel_capacity through every documented argument shape ---------------------------------------------------
+    @staticmethod
+    def rand_channel(rng):
+        n, m = rng.randint(1, 4), rng.randint(1, 4)
+        rows = []
+        for _ in range(n):
+            pv, _ = gen.rand_prob_vector(rng, m, rng.choice(['small', 'dyadic', 'uneven']))
+            rows.append([str(p) for p in pv])
+        if n >= 2 and rng.random() < 0.3:
+            rows[-1] = rows[0]
+        if m >= 2 and rng.random() < 0.4:
+            rows = []
+            for i in range(n):
+                pv, _ = gen.rand_prob_vector(rng, m - 1, rng.choice(['dyadic', 'uneven']))
+                while any(p == 0 for p in pv):
+                    pv, _ = gen.rand_prob_vector(rng, m - 1, 'uneven')
+                z = (i + rng.randint(0, 1)) % m
+                rows.append([str(p) for p in pv[:z]] + ['0'] + [str(p) for p in pv[z:]])
+        return rows
+
+    @staticmethod
+    def rand_marginal(rng, n):
+        """A P(X) over the n input letters to hand to channel_capacity: the capacity does not depend on it."""
+        style = rng.choice(['uniform', 'positive', 'zeros', 'zeros', 'point', 'point', 'tiny', 'tiny'])
+        if n == 1:
+            return 'point', ['1']
+        if style == 'uniform':
+            w = [Fraction(1, n)] * n
+        elif style == 'positive':
+            w, _ = gen.rand_prob_vector(rng, n, 'uneven')
+        elif style == 'point':
+            k = rng.randrange(n)
+            w = [Fraction(int(i == k)) for i in range(n)]
+        elif style == 'zeros':
+            supp = sorted(rng.sample(range(n), rng.randint(1, n - 1)))
+            pv, _ = gen.rand_prob_vector(rng, len(supp), 'uneven')
+            w = [Fraction(0)] * n
+            for i, p in zip(supp, pv):
+                w[i] = p
+        else:
+            # far below dit's null tolerance 1e-8 (never near it), kept by trim=False
+            eps = Fraction(1, 10 ** rng.choice([11, 14]))
+            k = rng.randrange(n)
+            small = [i for i in range(n) if i != k and rng.random() < 0.7] or [(k + 1) % n]
+            rest = [i for i in range(n) if i != k and i not in small]
+            w = [Fraction(0)] * n
+            for i in small:
+                w[i] = eps
+            for i in rest:
+                w[i] = Fraction(1, 5)
+            w[k] = 1 - sum(w)
+        return style, [str(p) for p in w]
+
+    def gen_capacity_call(self, rng):
+        call = {'cdists': rng.choice(['array', 'array', 'dists', 'dists-trim']), 'tol': rng.random() < 0.25}
+        if rng.random() < 0.3:
+            fam = rng.choice(['bsc', 'bec', 'noiseless', 'useless'])
+            case = {'kind': 'closed', 'family': fam,
+                    'e': str(rng.choice([Fraction(0), Fraction(1, 10), Fraction(1, 4), Fraction(1, 2), Fraction(9, 10)])),
+                    'n': rng.randint(2, 4)}
+            n = case['n'] if fam in ('noiseless', 'useless') else 2
+        else:
+            case = {'kind': 'capacity', 'P': self.rand_channel(rng)}
+            n = len(case['P'])
+        if rng.random() < 0.8:
+            call['marginal_style'], call['marginal'] = self.rand_marginal(rng, n)
+        else:
+            call['marginal_style'], call['marginal'] = 'none', None
+        case['call'] = call
+        return case
+
+    # -- several blahut_arimoto calls in one process; sources with impossible letters ---------------------------------
+    @staticmethod
+    def rand_source(rng, n, allow_zero):
+        style = rng.choice(['positive', 'positive', 'zeros', 'zeros', 'point']) if allow_zero else 'positive'
+        if style == 'positive':
+            pv, _ = gen.rand_prob_vector(rng, n, rng.choice(['small', 'uneven']))
+            while any(p == 0 for p in pv):
+                pv, _ = gen.rand_prob_vector(rng, n, 'uneven')
+        elif style == 'point':
+            k = rng.randrange(n)
+            pv = [Fraction(int(i == k)) for i in range(n)]
+        else:
+            supp = sorted(rng.sample(range(n), rng.randint(1, n - 1)))
+            sv, _ = gen.rand_prob_vector(rng, len(supp), 'uneven')
+            pv = [Fraction(0)] * n
+            for i, p in zip(supp, sv):
+                pv[i] = p
+        return [str(p) for p in pv]
+
+    def gen_rd_seq(self, rng):
+        n = rng.randint(2, 4)
+        steps = []
+        for _ in range(rng.randint(1, 5)):
+            ni = n if rng.random() < 0.85 else rng.randint(2, 4)
+            # the residual-entropy distortion is -log of conditional probabilities of the joint: on a source with an
+            # impossible letter the unchanged code reports nan (reported separately), so it only gets positive sources
+            dist = rng.choice(['hamming', 'hamming', 'hamming', 'residual'])
+            steps.append({'p': self.rand_source(rng, ni, dist == 'hamming'), 'dist': dist,
+                          'beta': rng.choice([0.0, 0.5, 1.0, 2.0, 3.5, 5.0, 8.0]),
+                          'max_iters': rng.choice([100, 100, 100, 3])})
+        return {'kind': 'rd-seq', 'steps': steps}
+
+    def gen_base(self, rng, tier):
         n_cases = 100 if tier == 'quick' else 6000
         for _ in range(n_cases):
             kind = rng.choice(['capacity', 'capacity', 'closed', 'rd', 'rd', 'rd-mono', 'ib', 'ib', 'capacity-joint', 'capacity-joint'])
@@ -134,7 +266,10 @@ class C13(object):
         with np.errstate(all='ignore'):
             kls = [float(np.nansum(np.where(row > 0, row * np.log2(row / q), 0.0))) for row in P]
         ref_mi = float(sum(p * k for p, k in zip(pmf, kls)))
-        if abs(pmf.sum() - 1) > 1e-9 or (pmf < -1e-12).any():
+        if pmf.shape != (P.shape[0],) or not np.isfinite(pmf).all() or not math.isfinite(cc):
+            r.oracle_fail = ('channel_capacity returned the value %r and the input %s: not a number / not a distribution '
+                             'over the %d input letters' % (cc, list(pmf), P.shape[0]))
+        elif abs(pmf.sum() - 1) > 1e-9 or (pmf < -1e-12).any():
             r.oracle_fail = 'returned input distribution %s is not a distribution' % list(pmf)
         elif abs(cc - ref_mi) > 1e-7:
             r.oracle_fail = 'capacity value %r but the returned input achieves I = %r' % (cc, ref_mi)
@@ -149,10 +284,46 @@ class C13(object):
         from dit.algorithms.channelcapacity import channel_capacity
         P = [[float(Fraction(v)) for v in row] for row in case['P']]
         r.nontrivial = len(P) >= 2 and len(P[0]) >= 2 and len(set(map(tuple, P))) >= 2
-        cc, pmf = channel_capacity(np.array(P))
+        cc, pmf = self.call_capacity(P, case.get('call'), r)
         self.certify_capacity(drv, P, float(cc), pmf, r)
-        if not r.bad():
+        if not r.bad() and (case.get('call') or {}).get('marginal') is None:
+            # (the optional marginal is documented as the carrier of the returned law only; the model of the iteration
+            # starts from the uniform input, and a start that reaches the same optimum would not be a violation)
             self.compare_capacity_loop(drv, P, float(cc), pmf, r)
+
+    def call_capacity(self, P, call, r):
+        """channel_capacity(cdists, marginal, rtol, atol) in the argument shape the case names; returns the value and the
+        input law as a list aligned with the rows of P. The capacity is a function of the channel alone: whatever P(X)
+        comes with the conditionals, the certificate of certify_capacity has to hold."""
+        from dit.algorithms.channelcapacity import channel_capacity
+        dit = import_dit()
+        P = np.array(P, dtype=float)
+        n, m = P.shape
+        call = call or {}
+        shape = call.get('cdists', 'array')
+        if shape == 'array':
+            cdists = P.copy()
+        else:
+            outs = [str(j) for j in range(m)]
+            cdists = [dit.Distribution(outs, [float(v) for v in row], trim=(shape == 'dists-trim')) for row in P]
+        kw = {}
+        if call.get('tol'):
+            kw = {'rtol': dit.ditParams['rtol'], 'atol': dit.ditParams['atol']}   # the documented defaults, passed
+        mg = call.get('marginal')
+        r.features += ['cdists=%s' % shape, 'marginal=%s' % call.get('marginal_style', 'none' if mg is None else 'given'),
+                       'tol=%s' % ('passed' if kw else 'default')]
+        if mg is None:
+            cc, pmf = channel_capacity(cdists, **kw)
+            return cc, np.array(pmf, dtype=float)
+        letters = [str(i) for i in range(n)]
+        w = [float(Fraction(v)) for v in mg]
+        md = dit.Distribution(letters, w, trim=False)
+        cc, mo = channel_capacity(cdists, md, **kw)
+        got = dict(zip(mo.outcomes, [float(v) for v in mo.pmf]))
+        if mo.get_base() != 'linear' or set(got) - set(letters):
+            raise ValueError('the returned marginal is not a linear distribution over the input letters: %r, base %r'
+                             % (list(got), mo.get_base()))
+        return cc, np.array([got.get(l, 0.0) for l in letters])
 
     def compare_capacity_loop(self, drv, P, cc, pmf, r):
         """The code's own iteration (uniform start, q/r sweeps, stopping rule) against Core/CapLoop.lean. The stopping
@@ -206,7 +377,7 @@ class C13(object):
             P, want = [row] * n, 0.0
         r.features.append('family=%s' % fam)
         r.nontrivial = True
-        cc, pmf = channel_capacity(np.array(P))
+        cc, pmf = self.call_capacity(P, case.get('call'), r)
         if abs(float(cc) - want) > 1e-6:
             r.oracle_fail = 'capacity of the %s channel (e=%s, n=%d) is %r, closed form %r' % (fam, case['e'], n, float(cc), want)
             return
@@ -238,6 +409,9 @@ class C13(object):
         r.detail = {'rate': rate, 'distortion': dval, 'model_mi': mi, 'model_expdist': ed, 'q': q.tolist()}
         if np.abs(q.sum(axis=1) - np.array(p)).max() > 1e-9 or (q < -1e-12).any():
             r.oracle_fail = 'input marginal of the returned joint %s is not the source %s' % (q.sum(axis=1).tolist(), p)
+            return None
+        if dist == 'hamming' and not (np.isfinite(q).all() and math.isfinite(rate) and math.isfinite(dval)):
+            r.oracle_fail = 'rate %r, distortion %r, joint %s: not numbers' % (rate, dval, q.tolist())
             return None
         if abs(rate - mi) > 1e-7:
             r.oracle_fail = 'reported rate %r but the returned joint has I = %r' % (rate, mi)
@@ -282,12 +456,85 @@ class C13(object):
         res, q = self.ba(p, beta, dist, mi_)
         out = self.certify_rd(drv, p, beta, dist, res, q, r, converged=mi_ >= 100)
         if out and dist == 'hamming' and len(p) == 2 and not r.bad() and mi_ >= 100:
-            rate, D = out
-            pm = min(p)
-            if 1e-6 < D < pm - 1e-6:
-                want = H2(pm) - H2(D)
-                if abs(rate - want) > 1e-2:
-                    r.oracle_fail = 'Bernoulli(%r) source at distortion %r: rate %r, R(D) = H(p) - H(D) = %r' % (pm, D, rate, want)
+            self.bernoulli_closed_form(p, out, r)
+
+    @staticmethod
+    def bernoulli_closed_form(p, out, r):
+        rate, D = out
+        pm = min(p)
+        if 1e-6 < D < pm - 1e-6:
+            want = H2(pm) - H2(D)
+            if abs(rate - want) > 1e-2:
+                r.oracle_fail = 'Bernoulli(%r) source at distortion %r: rate %r, R(D) = H(p) - H(D) = %r' % (pm, D, rate, want)
+
+    @staticmethod
+    def in_child(fn):
+        """fn() evaluated in a forked copy of this process; its (picklable) value is returned. Whatever the calls leave
+        behind in the library's module state ends with the child: the sequence of a case is judged on its own calls, it
+        replays alone, and it cannot disturb the cases that follow it in this worker."""
+        rfd, wfd = os.pipe()
+        pid = os.fork()
+        if pid == 0:
+            try:
+                os.close(rfd)
+                try:
+                    payload = ('ok', fn(), covtrace.snapshot())
+                except BaseException as e:   # noqa
+                    payload = ('exc', '%s: %s' % (type(e).__name__, str(e)[:300]), None)
+                with os.fdopen(wfd, 'wb') as f:
+                    pickle.dump(payload, f)
+            finally:
+                os._exit(0)
+        os.close(wfd)
+        with os.fdopen(rfd, 'rb') as f:
+            data = f.read()
+        os.waitpid(pid, 0)
+        if not data:
+            raise RuntimeError('the process running the calls ended without a result')
+        tag, val, hits = pickle.loads(data)
+        if tag != 'ok':
+            raise RuntimeError(val)
+        covtrace.merge(hits)
+        return val
+
+    def run_rd_seq(self, case, drv, r):
+        """Several blahut_arimoto calls one after the other in this process; the statement holds for every one of them,
+        whatever was computed before (sources may have letters of probability exactly 0)."""
+        steps = case['steps']
+        r.features.append('steps=%d' % len(steps))
+        r.nontrivial = len(steps) >= 2 and any(st['beta'] > 0 for st in steps)
+        seen_zero = set()
+        srcs = [[float(Fraction(v)) for v in st['p']] for st in steps]
+
+        def calls():
+            out = []
+            for p, st in zip(srcs, steps):
+                res, q = self.ba(p, st['beta'], st['dist'], st.get('max_iters', 100))
+                out.append(((float(res.rate), float(res.distortion)), np.array(q, dtype=float)))
+            return out
+        results = self.in_child(calls)
+        for i, st in enumerate(steps):
+            p = srcs[i]
+            beta, dist, mi_ = st['beta'], st['dist'], st.get('max_iters', 100)
+            if any(v == 0 for v in p):
+                r.features.append('step-source-with-zero')
+            elif len(p) in seen_zero and dist == 'hamming':
+                r.features.append('positive-source-after-zero-source-of-same-size')
+            res, q = core_rd_result(*results[i][0]), results[i][1]
+            out = self.certify_rd(drv, p, beta, dist, res, q, r, converged=mi_ >= 100)
+            if out and dist == 'hamming' and len(p) == 2 and not r.bad() and mi_ >= 100:
+                self.bernoulli_closed_form(p, out, r)
+            if r.bad():
+                where = 'call %d of %d (%s, source %s, beta %s, max_iters %s), after calls on the sources %s: ' % (
+                    i + 1, len(steps), dist, st['p'], beta, mi_, [s_['p'] for s_ in steps[:i]])
+                if r.oracle_fail:
+                    r.oracle_fail = where + r.oracle_fail
+                else:
+                    r.mismatch = where + r.mismatch
+                r.detail = dict(r.detail or {}, step=i)
+                return
+            if any(v == 0 for v in p):
+                seen_zero.add(len(p))
 
     def run_rd_mono(self, case, drv, r):
         p = [float(Fraction(v)) for v in case['p']]
@@ -465,10 +712,14 @@ class C13(object):
                 Afp /= Afp.sum(axis=1, keepdims=True)
                 resid = float(np.abs(Afp - cond).max())
                 r.detail = dict(r.detail or {}, ib_stationarity_residual=resid)
-                if resid > 1.5e-3:   # the unchanged code stays below 5.1e-4 on 700 sampled problems (stopping rule on successive distortions)
-                    r.oracle_fail = ('IB: the returned test channel is not a stationary point of R + beta D for its own distortion '
-                                     'matrix: max |q(t|x) - q(t) 2^(-beta d)/Z| = %r' % resid)
-                    return
+                if resid > 1.5e-3:
+                    # Recorded, not judged: stationarity of the channel itself is stricter than the statement. Along flat
+                    # directions of the objective the code's stopping rule (successive distortions np.isclose) leaves a
+                    # channel residual of 4.3e-3 at an objective gap of 8.2e-5 (pxy = 1/15, 1/3, 4/15, 1/3, beta 12, three
+                    # restarts). The statement's clause is the objective-level one below, with IB_GAP_TOL as before.
+                    tag = 'ib-stationarity>1.5e-3'
+                    if tag not in r.features:
+                        r.features.append(tag)
                 r.detail = dict(r.detail or {}, ib_gap=ach - lb)
                 if ach - lb > IB_GAP_TOL:
                     r.oracle_fail = ('IB: R + beta D = %r for the distortion matrix of the returned joint, but some test channel '
